@@ -377,6 +377,51 @@ def _oracle_roundtrip(acc, mjm, ref, res, w, nworld, xml, meta, fields):
   return not bad
 
 
+def _written_contact_fields():
+  """names X of every `result.contact.X[...] = ` in get_data_into's source (re-read each run)"""
+  from mujoco_warp._src import io
+  src = inspect.getsource(io.get_data_into)
+  names = []
+  for mm in re.finditer(r"^\s*result\.contact\.(\w+)(\[[^\]]*\])?\s*=", src, re.M):
+    if mm.group(1) not in names:
+      names.append(mm.group(1))
+  return names
+
+
+FLEX_XML = """<mujoco><option CONE/><worldbody><geom name="floor" type="plane" size="5 5 .1"/>
+  <geom name="ball" type="sphere" size=".1" pos="0.1 0.1 0.02"/><body pos=".6 0 .09"><freejoint/><geom size=".1" condim="COND"/></body>
+  <flexcomp name="cloth" type="grid" count="4 4 1" spacing=".1 .1 .1" pos="0 0 HEIGHT" radius=".02" dim="2" mass="1"><contact selfcollide="none"/></flexcomp>
+</worldbody></mujoco>"""
+
+
+def _oracle_flex_roundtrip(acc, rng, mjw, mujoco, nscenes=3):
+  """flex contacts (geom = -1, flex/elem/vert ids set) next to an ordinary contact: get_data_into(put_data(mjd)) must give back EVERY contact
+  column that get_data_into writes (names scanned from its source: dist ... geom, flex, elem, vert, efc_address), for every world"""
+  cols = _written_contact_fields()
+  for k in range(nscenes):
+    xml = (FLEX_XML.replace("CONE", 'cone="elliptic"' if k % 2 else "").replace("COND", str([3, 1, 4][k % 3])).replace("HEIGHT", f"{0.125 + 0.004 * rng.integers(0, 3):.3f}"))
+    mjm = mujoco.MjModel.from_xml_string(xml)
+    ref = mujoco.MjData(mjm)
+    mujoco.mj_forward(mjm, ref)
+    if not ref.ncon or not (np.asarray(ref.contact.geom)[:, 0] < 0).any() and not (np.asarray(ref.contact.flex) >= 0).any():
+      acc.hit("flex-roundtrip:no-flex-contact")
+      continue
+    nworld = 1 + k % 2
+    d = mjw.put_data(mjm, ref, nworld=nworld)
+    for w in range(nworld):
+      res = mujoco.MjData(mjm)
+      mjw.get_data_into(res, mjm, d, world_id=w)
+      bad = [f for f in ("ncon", "nefc") if int(getattr(res, f)) != int(getattr(ref, f))]
+      if not bad:
+        bad = ["contact." + c for c in cols if not _close(getattr(res.contact, c), getattr(ref.contact, c))]
+      acc.evals += 1
+      if bad:
+        _find_once(acc, xml, f"get_data_into(put_data(mjd, nworld={nworld}), world {w}) of a scene with flex contacts differs from mjd in {bad[:8]}", "io.get_data_into",
+                   "roundtrip-flex-contact", xml=xml, world=w, nworld=nworld, fields=bad[:12])
+    acc.hit("flex-roundtrip")
+    acc.hit("flex-roundtrip:cols=" + ",".join(cols))
+
+
 def _oracle_after_forward(acc, mjm, ref, res, d, w, xml):
   """internal consistency of what get_data_into exports after mjw.forward, and agreement with mj_forward up to order"""
   ncon, nefc = int(res.ncon), int(res.nefc)
@@ -731,6 +776,7 @@ def _run(ctx, nscenes, nfuzz, nfeat, with_lean=True):
           corr["get_err"] += int(st == "err")
     _oracle_put_model_rejects(acc)
     _oracle_features(acc, rng, nfeat)
+    _oracle_flex_roundtrip(acc, rng, mjw, mujoco)
   finally:
     if lean:
       lean.close()
